@@ -156,6 +156,7 @@ def execute(job):
     state = {"phase": 0, "li": 0}
     labels = job.get("labels")          # [[server, pc], ...] of a HubSched behaviour (kill entries removed)
     nwr = {}
+    killed = []
 
     def choose(cands, step):
         if job.get("policy") == "list_race":
@@ -177,6 +178,18 @@ def execute(job):
             # the model still spends its `dunl` step), no longer shifts every later step of the schedule
             while state["li"] < len(labels):
                 sid, lab = labels[state["li"]]
+                if lab == "kill":
+                    # the model's Kill(s): the process dies where it is parked (its next call never happens), the lock it may hold is gone
+                    state["li"] += 1
+                    srv = next((x for x in r.servers if x.sid == sid), None)
+                    if srv is not None and srv.alive and srv.pending is not None:
+                        r.grant(srv, kill=True)
+                        killed.append(sid)
+                        r.settle()
+                    cands = r.visible_servers()
+                    if not cands:
+                        return None
+                    continue
                 c = next((x for x in cands if x.sid == sid), None)
                 if c is None:
                     break                                   # that server cannot move now: nothing to match, fall through
@@ -303,7 +316,7 @@ def execute(job):
     return {"prog": job["prog"], "init": init, "events": events, "final": fin, "torn_steps": torn_steps,
             "sched": [[t["sid"], t["call"], t["path"]] for t in r.trace], "order": order, "kill": kill,
             "exits": [s.exit for s in r.servers], "relax_list": False, "want_final": job.get("want_final"), "want_bad": job.get("want_bad"),
-            "want_replies": job.get("want_replies"), "by_label": labels is not None}
+            "want_replies": job.get("want_replies"), "by_label": labels is not None, "killed": killed}
 
 
 def run_jobs(copia, shim, root, hashes, jobs, nproc=8):
